@@ -1,4 +1,5 @@
 import ZbossModel.Proofs.HostBound
+import ZbossModel.Proofs.HostRest
 /-! # C14 - blocking requests are mutually exclusive and served first-come first-served -/
 namespace Zboss.Host
 
@@ -70,12 +71,12 @@ theorem C14_nonblocking_never_queues (evs : List Ev) (r : Req) (hr : r ∈ (runE
 /-- … and so they are never parked behind a blocking request: what a non-blocking request can wait for is the message
     lock, the transmit lock, its acknowledgement and its own response -/
 theorem C14_nonblocking_waits_only_for_the_link (evs : List Ev) (r : Req) (hr : r ∈ (runEvents {} evs).1.reqs)
-    (hnb : r.blocking = false) (hp : r.phase ≠ .done) (hq : r.id ∉ (runEvents {} evs).1.ready) :
+    (hnb : r.blocking = false) (hp : r.phase ≠ .done) :
     (r.phase = .waitM ∧ r.id ∈ (runEvents {} evs).1.mq) ∨ (r.phase = .waitT ∧ r.id ∈ (runEvents {} evs).1.tq) ∨
     r.phase = .waitAck ∨ (r.phase = .waitRsp ∧ r.got = .nothing) := by
   have hg := good_reachable evs
   rcases hg.live.wake r hr hp (by simp) with hw | hw
-  · exact absurd hw hq
+  · rw [rest_reachable evs] at hw; cases hw
   · rcases hw with ⟨l, h1, h2, _⟩ | hw | hw
     · cases l with
       | B => exact absurd h2 (C14_nonblocking_never_queues evs r hr hnb)
